@@ -22,7 +22,9 @@ var tableValues = map[lang.Kind][]lang.Value{
 	lang.KFloat: {lang.Float(0), lang.Float(0.5), lang.Float(-0.5), lang.Float(1), lang.Float(1.5), lang.Float(2.5),
 		lang.Float(3), lang.Float(-2), lang.Float(65534), lang.Float(0.1), lang.Float(1e15), lang.Float(1e-7)},
 	lang.KString: {lang.Str(""), lang.Str("a"), lang.Str("b"), lang.Str("A"), lang.Str("abc"), lang.Str("10"),
-		lang.Str("9"), lang.Str(" a "), lang.Str("é"), lang.Str("狐犬"), lang.Str("a\nb"), lang.Str("true")},
+		lang.Str("9"), lang.Str(" a "), lang.Str("é"), lang.Str("狐犬"), lang.Str("a\nb"), lang.Str("true"),
+		// host data that is not valid UTF-8 (Latin-1 text, a stray byte): never a literal
+		lang.Str("caf\xe9"), lang.Str("\xffa\xfe")},
 	lang.KBool: {lang.Bool(true), lang.Bool(false)},
 	lang.KNull: {lang.Null()},
 	lang.KArray: {lang.Array(), lang.Array(lang.Int(1)), lang.Array(lang.Int(1), lang.Str("a")),
